@@ -64,9 +64,34 @@ fn decode_both(rep: &mut Report, bytes: &[u8], what: &str) -> Option<Result<Img,
                 _ => false,
             };
             let (b, c) = (if same(&a, &b) { a.clone() } else { b }, if same(&a, &c) { a.clone() } else { c });
+            // On arbitrary bytes each entry point is judged on its own (the
+            // statement asks each for "an image matching its header, or an
+            // error"; whether a reader retries EINTR or stops at trailing
+            // garbage is not part of it): the caller judges `a`, and the two
+            // reader results get the same dims·pixels check here.
+            if what.starts_with("arbitrary") {
+                for r in [&b, &c] {
+                    if let Ok((w, h, px)) = r {
+                        if *w as u64 * *h as u64 != px.len() as u64 {
+                            rep.violation("pnm.pixel_count_ne_w_times_h", format!("read_pnm: Ok(image) {w}x{h} with {} pixels", px.len()), cj());
+                            return None;
+                        }
+                    }
+                }
+                if a != b || a != c {
+                    rep.count("entry_points_differ_on_arbitrary_bytes(not a clause)");
+                }
+                return Some(a);
+            }
             if a != b {
                 rep.violation("pnm.parse_vs_read_differ", format!("parse_pnm and read_pnm disagree: {:?} vs {:?}", a.as_ref().map(|x| (x.0, x.1)), b.as_ref().map(|x| (x.0, x.1))), cj());
                 return None;
+            }
+            if a != c && matches!(&c, Err(e) if e.contains("Interrupted")) {
+                // surfacing EINTR to the caller instead of retrying it is a
+                // choice the statement does not speak about
+                rep.count("reader_faults.eintr_surfaced_as_an_error(not a clause)");
+                return Some(a);
             }
             if a != c {
                 rep.violation("pnm.parse_vs_read_differ", format!("read_pnm from a reader delivering short chunks with EINTR disagrees with parse_pnm: {:?} vs {:?}", a.as_ref().map(|x| (x.0, x.1)), c.as_ref().map(|x| (x.0, x.1))), cj().set("reader", "short chunks + EINTR"));
@@ -110,8 +135,18 @@ fn ref_p6(b: &[u8]) -> Option<(u64, u64, u64, &[u8])> {
     let mut nums = [0u64; 3];
     for n in nums.iter_mut() {
         let s = i;
-        while i < b.len() && b[i].is_ascii_whitespace() {
-            i += 1;
+        loop {
+            while i < b.len() && b[i].is_ascii_whitespace() {
+                i += 1;
+            }
+            // a whitespace-preceded comment runs to the end of its line
+            if i > s && i < b.len() && b[i] == b'#' {
+                while i < b.len() && b[i] != b'\n' && b[i] != b'\r' {
+                    i += 1;
+                }
+                continue;
+            }
+            break;
         }
         if i == s {
             return None;
@@ -343,9 +378,11 @@ fn encode(rng: &mut Rng, magic: &[u8; 2], w: u32, h: u32, gray: &[u8], rgbs: &[[
                 o.extend(c);
             }
         }
+        // (comments belong between the header fields; inside the raster only
+        // whitespace separates the samples)
         b"P2" => {
             for g in gray {
-                gap(rng, &mut o, true);
+                gap(rng, &mut o, false);
                 o.extend(g.to_string().bytes());
             }
             if rng.bool() {
@@ -355,7 +392,7 @@ fn encode(rng: &mut Rng, magic: &[u8; 2], w: u32, h: u32, gray: &[u8], rgbs: &[[
         _ => {
             for c in rgbs {
                 for s in c {
-                    gap(rng, &mut o, true);
+                    gap(rng, &mut o, false);
                     o.extend(s.to_string().bytes());
                 }
             }
@@ -573,9 +610,9 @@ pub fn run(cfg: &Cfg, rep: &mut Report) {
     rep.floor("roundtrip.strided_subview", 5_000);
     rep.floor("roundtrip.zero_width_or_height", 1_000);
     rep.floor("equivalence.pixels_compared", 1_000_000);
-    rep.floor("totality.decoded_ok", 20_000);
+    rep.floor("totality.decoded_ok", 5_000);
     rep.floor("totality.rejected_with_error", 100_000);
-    rep.floor("totality.dims_cross_checked", 10_000);
+    rep.floor("totality.dims_cross_checked", 3_000);
     rep.floor("reader_faults.injected_eintr", 100_000);
     rep.floor("reader_faults.hard_failure_midstream", 100_000);
     rep.floor("file_roundtrip.save_load_compared", 1_000);
